@@ -872,6 +872,14 @@ func Gen(o Opts) *rapid.Generator[Program] {
 		}
 		drawDict := func() *gen.O {
 			d := gen.O{T: "dict"}
+			if rapid.IntRange(0, 7).Draw(t, "xmpdict") == 0 {
+				// an ordinary stream that calls itself a metadata stream, as
+				// the XMP packet of a page or an image does: only the
+				// document-level metadata stream named by the catalog is
+				// exempt from encryption when /EncryptMetadata is false
+				d.D = []gen.KV{{K: gen.Hex("Type"), V: gen.O{T: "name", S: gen.Hex("Metadata")}}, {K: gen.Hex("Subtype"), V: gen.O{T: "name", S: gen.Hex("XML")}}}
+				return &d
+			}
 			n := rapid.IntRange(0, 3).Draw(t, "ndictkeys")
 			for i := 0; i < n; i++ {
 				key := rapid.SampledFrom([]string{"Type", "Subtype", "K", "My Key", "Params", "X#1"}).Draw(t, "dictkey")
